@@ -136,17 +136,18 @@ def judge_and_report(res, prop, records, owners, describe, wd, name):
             res.known_finding(fid, KNOWN_TEXT[fid])
         else:
             bad.append(idx)
-    for b in sorted(bad)[:8]:
+    for b in sorted(bad)[:200]:
         rp = yv.save_replay(prop, "%s_case_%d" % (name, b), {"case": describe(owners[b]), "record": records[b]})
         res.violation("observation is not what the reference semantics allows: %s" % json.dumps(describe(owners[b]))[:600], rp)
-    for b in sorted(bad)[8:]:
-        res.violations.append(("(further rejected case)", "-"))
+    if len(bad) > 200:
+        res.cov["parts"][name + "_further_rejected_cases"] = len(bad) - 200
 
 
 KNOWN_TEXT = {
     "D12": "chained string with a variable-length piece misses occurrences (unconfirmed-match pruning / first length only)",
     "D17": "fullword regular expression: only the engine's preferred match length is tested against the word boundaries",
     "D14": "zero-length matches of an expression that can match the empty string are reported",
+    "D40": "counted repeat {n,m} (m >= 3 or unbounded) over a body that can match the empty string loses matches: (a*){3,6} never matches",
 }
 
 
@@ -292,7 +293,9 @@ def re_piece(r, depth, lazy):
         elif k < 0.5: q = ("{,%d}" % hi, 0, hi)
         else: q = ("{%d,%d}" % (lo, hi), lo, hi)
     if q:
-        return t + q[0] + ("?" if lazy else ""), rep(nd, q[1], q[2])
+        node = rep(nd, q[1], q[2])
+        if q[0].startswith("{"): node["brace"] = True
+        return t + q[0] + ("?" if lazy else ""), node
     return t, nd
 
 
